@@ -37,32 +37,32 @@ type refNode struct {
 	// breaker
 	errSecs []int64
 	// recovery
-	fused      bool  // the current down state was (also) caused by the breaker
-	lastFuse   int64 // hard: latest triggering error; gradual: latest up->down by breaker
-	lastRecov  int64
-	badCount   int64
-	consec     int64
-	viaMasterDown bool
+	fused             bool  // the current down state was (also) caused by the breaker
+	lastFuse          int64 // hard: latest triggering error; gradual: latest up->down by breaker
+	lastRecov         int64
+	badCount          int64
+	consec            int64
+	viaMasterDown     bool
 	masterDownRestore bool // the reference refused a restore that the master-down rule would make
 }
 
 type healthWorld struct {
-	r         *simkit.Run
-	focus     string
-	policy    string // none | hard | gradual
-	cool      int64
-	window    int64
-	minErr    int64
-	downAfter int64
-	lagLimit  int
-	healthSQL string
-	master    *refNode
-	replicas  []*refNode
-	slice     *backend.Slice
-	atomicRun bool
+	r            *simkit.Run
+	focus        string
+	policy       string // none | hard | gradual
+	cool         int64
+	window       int64
+	minErr       int64
+	downAfter    int64
+	lagLimit     int
+	healthSQL    string
+	master       *refNode
+	replicas     []*refNode
+	slice        *backend.Slice
+	atomicRun    bool
 	masterVaries bool
-	pendingFuse int // reader calls in progress
-	finding     string
+	pendingFuse  int // reader calls in progress
+	finding      string
 }
 
 func (w *healthWorld) unix() int64 { return time.Now().Unix() }
@@ -301,9 +301,13 @@ func runHealth(r *simkit.Run, focus string) {
 	// observation: every probe the real checker starts steps the reference
 	all := append([]*refNode{w.master}, w.replicas...)
 	roundOpen := map[*refNode]bool{}
+	masterSeenDown := false
 	for _, n := range all {
 		n := n
 		n.pool.onProbe = func(p *fakePool) {
+			if !w.master.node.IsStatusUp() {
+				masterSeenDown = true
+			}
 			n.script.lastProbe = r.Now()
 			r.Logf("probe %s at %v (unix %d) script{getCheck=%q health=%q ping=%q sel1=%q slave=%q lag=%d} real=%v ref.up=%v", n.script.name, r.Now(), w.unix(), n.script.getCheck, n.script.healthSQL, n.script.ping, n.script.select1, n.script.slave, n.script.lag, n.node.IsStatusUp(), n.up)
 			if w.atomicRun {
@@ -345,7 +349,24 @@ func runHealth(r *simkit.Run, focus string) {
 	}
 	// invariants that hold under every interleaving (used in non-atomic runs too)
 	lastTrigger := map[*refNode]int64{}
+	// A replica that came up while the master was marked down took the master-down path (finding C27-F1), whatever
+	// the master's status is by the time the invariant is evaluated: the master's status is sampled at every probe
+	// start and at every evaluation, and a down->up transition of a replica is attributed to that path when the
+	// master was seen down since the previous evaluation.
+	prevUp := map[*refNode]bool{}
+	upViaMasterDown := map[*refNode]bool{}
 	invariants := func() {
+		if !w.master.node.IsStatusUp() {
+			masterSeenDown = true
+		}
+		for _, n := range w.replicas {
+			up := n.node.IsStatusUp()
+			if up && !prevUp[n] {
+				upViaMasterDown[n] = masterSeenDown
+			}
+			prevUp[n] = up
+		}
+		masterSeenDown = !w.master.node.IsStatusUp()
 		if w.policy != "hard" {
 			return
 		}
@@ -354,7 +375,7 @@ func runHealth(r *simkit.Run, focus string) {
 			if !ok || !n.node.IsStatusUp() {
 				continue
 			}
-			if w.unix() < lt+w.cool && !(w.masterVaries && !w.master.node.IsStatusUp()) && !n.viaMasterDown {
+			if w.unix() < lt+w.cool && !(w.masterVaries && (!w.master.node.IsStatusUp() || upViaMasterDown[n])) && !n.viaMasterDown {
 				w.fail("C27-restored-before-cooldown", "node %s is up at unix %d although the breaker fired at %d and the cool-down is %ds", n.script.name, w.unix(), lt, w.cool)
 			}
 		}
@@ -555,10 +576,10 @@ type fuseObs struct {
 	task     string
 	at       int64
 	returned bool
-	n     *refNode
-	kind  string
-	trig  bool
-	wasUp bool
+	n        *refNode
+	kind     string
+	trig     bool
+	wasUp    bool
 }
 
 var pendingCheck []fuseObs
